@@ -117,6 +117,9 @@ class HassebDALIUSBDriver(DALIDriver):
         raise NotImplementedError()
 
     def construct(self, command):
+        if len(command.frame) != 16:
+            raise ValueError(
+                'Unknown frame length: {}'.format(len(command.frame)))
         # sequence number
         self.sn = self.sn+1
         if self.sn > 255:
